@@ -3498,7 +3498,14 @@ class Inflate(Array):
 
     def _intbounds_impl(self):
         lower, upper = self.func._intbounds
-        return min(lower, 0), max(upper, 0)
+        # entries of `func` with equal dofs are summed
+        n = 1
+        if not (isinstance(self.dofmap, Constant) and _ismonotonic(numpy.sort(self.dofmap.value, axis=None))):
+            for sh in self.dofmap.shape:
+                n *= sh._intbounds[1]
+        if n == 0:
+            return 0, 0
+        return 0 if lower >= 0 else lower * n, 0 if upper <= 0 else upper * n
 
     def _argument_degree(self, argument):
         if argument not in self.dofmap.arguments and argument not in self.length.arguments:
